@@ -254,20 +254,20 @@ def to_labels(obs):
     closing_threads = set()
     rel_hold = {}       # thread -> [entry names taken by its disconnect]
     rx = {'mode': None, 'line': False, 'found': None, 'fails': 0, 'removed': False, 'clean': False, 'set_for': None,
-          'requeue': []}
+          'requeue': [], 'took': []}
     has_lock = any(e[1] == 'lk.acq' and e[2] == 'reqlock' for e in ev)
     notes = []
 
     def rx_flush_lazy():
         # a line that never reached the matching code (event line / undecodable): dropped
         if rx['line'] and rx['mode'] is None:
-            labels.append(['rxMatch', None])
+            labels.append(['rxMatch', None, ('took', [])])
             rx['line'] = False
 
     def rx_cleanup_lazy():
         if rx['clean'] and not has_lock:
-            labels.append(['rxCleanup', False])
-            rx['clean'] = False
+            labels.append(['rxCleanup', False, ('took', rx['took'])])
+            rx.update(clean=False, took=[])
 
     for e in ev[start + 1:]:
         th, kind = e[0], e[1]
@@ -325,18 +325,19 @@ def to_labels(obs):
                 re_id = obs['sent_entries'][re_idx]
             labels.append(['peerEmit', action, spec, line_is_bad(text), ('re', re_idx)])
             labels.append(['rxRead'])
-            rx.update(line=True, mode=None, found=None, fails=0)
+            rx.update(line=True, mode=None, found=None, fails=0, took=[])
         elif kind == 'c.read.closed' and is_rx:
             labels.append(['closeBegin'])
             closing_threads.add(th)
         elif kind == 'l.pop' and is_rx:
             labels.append(['rxCleanPop'])
-            rx.update(clean=True, removed=False, mode='clean')
+            rx.update(clean=True, removed=False, mode='clean', took=[])
         elif kind == 'd.pop' and is_rx:
             if rx['mode'] == 'clean':
                 rx['removed'] = e[4] is not None
                 if not has_lock:
-                    labels.append(['rxCleanup', rx['removed']])
+                    rx['pending_label'] = ['rxCleanup', rx['removed'], ('took', rx['took'])]
+                    labels.append(rx['pending_label'])
                     rx.update(clean=False, mode=None)
             else:
                 rx['mode'] = 'match'
@@ -345,24 +346,26 @@ def to_labels(obs):
                 else:
                     rx['fails'] += 1
                 if not has_lock and (rx['found'] is not None or rx['fails'] >= 2):
-                    labels.append(['rxMatch', ('id', rx['found'])])
+                    rx['pending_label'] = ['rxMatch', ('id', rx['found']), ('took', rx['took'])]
+                    labels.append(rx['pending_label'])
                     rx['set_for'] = rx['found']
                     rx.update(line=False, mode=None)
         elif kind == 'q.get' and e[2] == 'pending':
             name, block = e[3], e[4]
             if is_rx and block:
                 rx['requeue'].append(name)
+                rx['took'].append(name)      # the list object is shared with the label of this section
             else:
                 labels.append(['closePending'])
                 rel_hold.setdefault(th, []).append(name)
         elif kind == 'lk.rel' and e[2] == 'reqlock' and is_rx:
             if rx['mode'] == 'clean':
-                labels.append(['rxCleanup', rx['removed']])
-                rx.update(clean=False, mode=None)
+                labels.append(['rxCleanup', rx['removed'], ('took', rx['took'])])
+                rx.update(clean=False, mode=None, took=[])
             elif rx['mode'] == 'match':
-                labels.append(['rxMatch', ('id', rx['found'])])
+                labels.append(['rxMatch', ('id', rx['found']), ('took', rx['took'])])
                 rx['set_for'] = rx['found']
-                rx.update(line=False, mode=None)
+                rx.update(line=False, mode=None, took=[])
         elif kind == 'd.popitem':
             if e[4] is not None:
                 labels.append(['closeActive'])
@@ -419,8 +422,10 @@ def to_labels(obs):
         if lb[0] == 'peerEmit':
             idx = lb[4][1]
             lb[4] = sent[idx] if idx is not None and idx < len(sent) else None
-        elif lb[0] == 'rxMatch' and isinstance(lb[1], tuple):
+        if lb[0] == 'rxMatch' and isinstance(lb[1], tuple):
             lb[1] = ids.get(lb[1][1]) if lb[1][1] is not None else None
+        if lb[0] in ('rxMatch', 'rxCleanup') and isinstance(lb[2], tuple):
+            lb[2] = [ids.get(n, 10 ** 6) for n in lb[2][1]]
     # callers
     text_seq = {}
     for q, text in seqs.items():
